@@ -250,9 +250,14 @@ class Parser:
                 e = ("call", e, self.args())
             elif self.at("[") and e[0] not in ("block", "if", "iflet", "match"):
                 self.i += 1
-                ix = self.expr()
-                self.eat("]")
-                e = ("index", e, ix)
+                lo = None if self.at("..") else self.expr()
+                if self.accept(".."):
+                    hi = None if self.at("]") else self.expr()
+                    self.eat("]")
+                    e = ("slice", e, lo, hi)
+                else:
+                    self.eat("]")
+                    e = ("index", e, lo)
             elif self.at("?"):
                 self.i += 1
                 e = ("try", e)
